@@ -91,14 +91,24 @@ type SignerOptions struct {
 	Decoys     []Decoy       // further wallet entries that are listed but must never sign (see Decoy)
 	LogLevel   string        // default "info" (the start-up confirmation reads the listening line)
 	StartWait  time.Duration // default 60 s
+	// Listener starts the wallet's file-system listener (fileWallet.disableListener: false): key
+	// files that appear in the wallet directory while the process runs become part of the wallet.
+	// Every such process holds one inotify instance (fs.inotify.max_user_instances is small, 128
+	// here, and shared with everything else the user runs): use it for short-lived processes only
+	// and stop each before the next is started.
+	Listener bool
+	// ListenerWaits: how often a start that failed for want of an inotify instance is tried
+	// again after a pause of 1.5 s (0 = default 3; negative = not at all).
+	ListenerWaits int
 }
 
 // Signer is a running ffsigner process.
 type Signer struct {
-	URL  string
-	Port int
-	Dir  string
-	Pid  int
+	URL       string
+	Port      int
+	Dir       string
+	WalletDir string
+	Pid       int
 
 	cmd     *exec.Cmd
 	log     *logRing
@@ -139,12 +149,19 @@ func yamlQuote(s string) string {
 	return string(b)
 }
 
-// ConfigYAML renders the configuration file of one process.
+// ConfigYAML renders the configuration file of one process whose wallet is fixed (no
+// file-system listener).
 func ConfigYAML(walletDir string, port int, backendURL string, chainID *int64, logLevel string) string {
+	return ConfigYAMLListener(walletDir, port, backendURL, chainID, logLevel, false)
+}
+
+// ConfigYAMLListener renders the configuration file of one process, with the wallet's
+// file-system listener switched on or off.
+func ConfigYAMLListener(walletDir string, port int, backendURL string, chainID *int64, logLevel string, listener bool) string {
 	var sb strings.Builder
 	sb.WriteString("fileWallet:\n")
 	sb.WriteString("  path: " + yamlQuote(walletDir) + "\n")
-	sb.WriteString("  disableListener: true\n")
+	sb.WriteString(fmt.Sprintf("  disableListener: %v\n", !listener))
 	sb.WriteString("  filenames:\n")
 	sb.WriteString("    primaryExt: \".key.json\"\n")
 	sb.WriteString("    passwordExt: \".pwd\"\n")
@@ -190,6 +207,24 @@ func startOnSpawner(cmd *exec.Cmd) error {
 // ErrBinary marks a missing or unusable ffsigner binary (infrastructure, not a verdict).
 var ErrBinary = errors.New("ffsigner binary not available")
 
+// ErrListenerLimit marks a process that could not start its file-system listener because the
+// kernel refused another inotify instance or watch (EMFILE "too many open files" at
+// fs.inotify.max_user_instances, ENOSPC "no space left on device" at max_user_watches): the
+// machine is out of a per-user resource, which is no verdict about the code under test.
+var ErrListenerLimit = errors.New("no inotify instance/watch available for the wallet's file-system listener")
+
+func listenerLimitHit(log string) bool {
+	i := strings.Index(log, "Failed to start filesystem listener")
+	if i < 0 {
+		return false
+	}
+	rest := log[i:]
+	if nl := strings.IndexByte(rest, '\n'); nl >= 0 {
+		rest = rest[:nl]
+	}
+	return strings.Contains(rest, "too many open files") || strings.Contains(rest, "no space left on device")
+}
+
 // BinaryPath resolves the binary under test.
 func BinaryPath() (string, error) {
 	p := os.Getenv("VERIF_FFSIGNER")
@@ -227,17 +262,18 @@ func StartSigner(o SignerOptions) (*Signer, error) {
 		return nil, err
 	}
 	var lastErr error
+	limitRetries := 0
 	for attempt := 0; attempt < 20; attempt++ {
 		port, err := FreePort()
 		if err != nil {
 			return nil, err
 		}
 		cfgPath := filepath.Join(o.Dir, "ffsigner.yaml")
-		if err := os.WriteFile(cfgPath, []byte(ConfigYAML(walletDir, port, o.BackendURL, o.ChainID, o.LogLevel)), 0o600); err != nil {
+		if err := os.WriteFile(cfgPath, []byte(ConfigYAMLListener(walletDir, port, o.BackendURL, o.ChainID, o.LogLevel, o.Listener)), 0o600); err != nil {
 			return nil, err
 		}
 		s := &Signer{
-			URL: fmt.Sprintf("http://127.0.0.1:%d/", port), Port: port, Dir: o.Dir,
+			URL: fmt.Sprintf("http://127.0.0.1:%d/", port), Port: port, Dir: o.Dir, WalletDir: walletDir,
 			log: &logRing{}, exited: make(chan struct{}),
 			client: &http.Client{Transport: &http.Transport{
 				MaxIdleConns: 4, MaxIdleConnsPerHost: 4, IdleConnTimeout: 30 * time.Second,
@@ -263,7 +299,21 @@ func StartSigner(o SignerOptions) (*Signer, error) {
 		}
 		lastErr = err
 		s.Kill()
-		if !strings.Contains(s.log.headString()+s.log.Tail(4096), "address already in use") {
+		out := s.log.headString() + s.log.Tail(4096)
+		if o.Listener && listenerLimitHit(out) {
+			// other short-lived processes of this user hold the inotify instances: wait for some to go
+			lastErr = fmt.Errorf("%w: %v", ErrListenerLimit, err)
+			waits := o.ListenerWaits
+			if waits == 0 {
+				waits = 3
+			}
+			if limitRetries++; limitRetries > waits {
+				break
+			}
+			time.Sleep(1500 * time.Millisecond)
+			continue
+		}
+		if !strings.Contains(out, "address already in use") {
 			break
 		}
 	}
